@@ -64,4 +64,8 @@ META["C18"] = {
     "text": "Lock discipline decided by schedule queries: each FeeQuote / FeeQuotes method is executed symbolically on a shared object with mutex operations and every access to the shared cells and maps logged; for every ordered pair of methods (self-pairs included) and every conflicting access pair an SMT query over integer time stamps (program order, RWMutex exclusion) asks for a schedule in which the two accesses are adjacent - unsat for all pairs = data-race free for two threads with one call each; a sat answer is confirmed by running that pair under the Go race detector. Engine statelessness: a shared-write monitor over every explored Engine.Execute path shows no package-level state is written, so concurrent executions on distinct transactions cannot interfere.",
     "note": "Level is bounded model checking of two-call schedules; more than two concurrent calls are covered by the reduction argument in DESIGN.md (the only synchronisation is the two mutexes; no method blocks on state), not explored. Trusted: gosym event extraction (sync.RWMutex as lock events, encoding/json model reads the map), Go memory model edges Unlock->Lock. Writes inside stubbed dependencies are outside the claim.",
 }
+META["C05"] = {
+    "text": "Bounded symbolic model checking of one interpreter step against a reference semantics written from the BSV script rules: (a) every non-signature, non-conditional opcode on an executing branch from an arbitrary state (symbolic opcode, flag word, era, stack items up to K bytes, op counter) - verdict class and both stacks equal the reference; (b) numeric-count opcodes with count operands up to 9 bytes; (c) every opcode from an arbitrary conditional state (nesting, ELSE seen, early return pending) - verdict, nesting depth, whether the next instruction executes, stacks. The reference is validated natively on every run against all 11,449 executed steps of the node's 1,438 script_tests.json programs. Whole-program equivalence follows by induction over steps (paper argument).",
+    "note": "Trusted: gosym, z3, math/big as exact arbitrary-width bit-vectors (shared by implementation and reference: what is compared is everything go-bt adds around it - decoding, limits, minimal encoding, clamping, truthiness), hash functions uninterpreted. Outside the claim: items > K bytes, MUL/DIV/MOD operands > KM bytes, CLTV/CSV locktime rules, signature opcodes (C06), P2SH redeem-script switching and end-of-script clean-stack checks, real 1000-deep stacks / 500-op scripts.",
+}
 NOT_APPLICABLE = {}
